@@ -47,7 +47,7 @@ pub fn run(args: &[String]) -> i32 {
         let paths = if concrete { (0..items.len()).map(|i| (Some(1), Some(101), Some(i as u32))).collect() } else { vec![(Some(1), Some(101), None)] };
         let sees_events = ev_mode == "wild" || ev_mode == "both";
         let n_status = if ev_mode == "missing" || ev_mode == "both" { 1 } else { 0 };
-        let req = Req { kind: "read".into(), paths, timed: false, ev_paths };
+        let req = Req { kind: "read".into(), paths, timed: false, ev_paths, late: false };
         tr.ev(json!({"ev": "Reset", "run": bi}));
         tr.ev(json!({"ev": "Req", "items": expect, "events": if sees_events { evs.clone() } else { vec![] }, "evstatus": n_status}));
         match crate::util::catch(|| run_request(&spec, &[], true, &req, 300)) {
